@@ -269,7 +269,13 @@ impl Visitor<'_, '_> {
         return_keyword: ast::TokenSpan,
         expr: &Option<Sp<ast::Expr>>,
     ) -> ImplResult {
-        let func_state = self.cur_func_stack.last_mut().expect("return outside of function?!");
+        let func_state = match self.cur_func_stack.last_mut() {
+            Some(func_state) => func_state,
+            None => return Err(self.ctx.emitter.emit(error!(
+                message("'return' outside of a function"),
+                primary(return_keyword, "not inside a function"),
+            ))),
+        };
         func_state.missing_return = false;
 
         let func_def_id = func_state.func_def_id;
